@@ -631,7 +631,7 @@ func rejectProbe(p *Probe, addr string) probeResult {
 	}
 	defer c.Close()
 	wait := 700 * time.Millisecond // policies that keep the connection open are not waited for
-	if p.ExpectRST {
+	if p.ExpectRST || p.ExpectFB {
 		wait = 5 * time.Second
 	}
 	c.SetDeadline(time.Now().Add(wait))
@@ -640,6 +640,27 @@ func rejectProbe(p *Probe, addr string) probeResult {
 	} else {
 		b := make([]byte, 4096)
 		n, err := c.Read(b)
+		if p.ExpectFB && n > 0 {
+			// the fallback target is the echo server: every byte we sent must come back unchanged
+			sent := payloadFor(p.Seed, p.Size)
+			got := append([]byte(nil), b[:n]...)
+			for len(got) < len(sent) {
+				m, err := c.Read(b)
+				got = append(got, b[:m]...)
+				if err != nil {
+					break
+				}
+			}
+			if string(got) == string(sent) {
+				r.Outcome = "fallback-echo"
+			} else {
+				r.Outcome = "data-mismatch"
+				r.Err = fmt.Sprintf("sent %d bytes, got %d back, equal prefix %v", len(sent), len(got), len(got) <= len(sent) && string(got) == string(sent[:len(got)]))
+			}
+			r.OK = true
+			r.Millis = time.Since(t0).Milliseconds()
+			return r
+		}
 		switch {
 		case n > 0:
 			r.Outcome = "data"
@@ -651,6 +672,27 @@ func rejectProbe(p *Probe, addr string) probeResult {
 			r.Outcome = "rst"
 		}
 	}
+	r.OK = true
+	r.Millis = time.Since(t0).Milliseconds()
+	return r
+}
+
+// scanProbe behaves like a port scanner: connect and close at once (scan-close), or connect, send
+// one byte and close (scan-byte). Nothing is expected back; the process must survive.
+func scanProbe(p *Probe, addr string) probeResult {
+	t0 := time.Now()
+	r := probeResult{Kind: p.Kind, Addr: addr}
+	c, attempts, err := dialRetry(addr, 8*time.Second)
+	r.Attempts = attempts
+	if err != nil {
+		r.Err = "dial: " + err.Error()
+		return r
+	}
+	if p.Kind == "scan-byte" {
+		c.SetWriteDeadline(time.Now().Add(2 * time.Second))
+		c.Write([]byte{byte(p.Seed)})
+	}
+	c.Close()
 	r.OK = true
 	r.Millis = time.Since(t0).Milliseconds()
 	return r
